@@ -104,9 +104,36 @@ fn predicted_tokens_tile_the_text(ctx: &mut Ctx, rs: &RefSentence) {
 
 fn c02_check(ctx: &mut Ctx, rs: &RefSentence, variant: &str, route: usize) {
     // the same label vector reached through different histories of the public API
-    let route_name = ["from_raw+boundaries_mut", "predict_then_boundaries_mut", "from_partial_annotation", "update_raw_after_text_of_same_shape"][route % 4];
+    // a fifth route exists only for fully segmented sentences: the tokenized parser fed with redundant escapes
+    let route = if route % 5 == 4 && rs.labels.contains(&2) { 0 } else { route % 5 };
+    let route_name = ["from_raw+boundaries_mut", "predict_then_boundaries_mut", "from_partial_annotation", "update_raw_after_text_of_same_shape", "from_tokenized_with_redundant_escapes"][route];
     ctx.count(&format!("sentences_via_{route_name}"), 1);
-    let r = guard(|| match route % 4 {
+    let r = guard(|| match route {
+        4 => {
+            // every character of every surface and tag carries a backslash (legal: an escape of an ordinary character)
+            let mut line = String::new();
+            let spans = ref_partition(rs.chars.len(), &rs.labels);
+            for (i, sp) in spans.iter().enumerate() {
+                if i > 0 {
+                    line.push(' ');
+                }
+                for &c in &rs.chars[sp.start..sp.end] {
+                    line.push('\\');
+                    line.push(c);
+                }
+                for t in rs.trimmed(sp.end - 1) {
+                    line.push('/');
+                    if let Some(t) = t {
+                        for c in t.chars() {
+                            line.push('\\');
+                            line.push(c);
+                        }
+                    }
+                }
+            }
+            let s = vaporetto::Sentence::from_tokenized(&line).expect("tokenized line with redundant escapes");
+            observe(&s, false)
+        }
         3 => {
             // the object held another text with the same number of characters and bytes (reversed order)
             let prev: String = rs.chars.iter().rev().collect();
@@ -369,6 +396,8 @@ const FMT_ALPHA: &[char] = &[' ', '/', '\\', '-', '|', 'a', 'あ', '𠮷', 'é',
 const FMT_CONFUSABLE: &[char] = &[
     '\u{3000}', '\u{a0}', '／', '＼', '｜', '−', '－', 'ー', '\u{2028}', '\u{2029}', '\t', '\u{b}', '\u{c}', '\r', '\u{85}', '\u{1f}', '\u{7f}', '\u{200b}',
     '\u{feff}', '\u{2002}', '\u{202f}', '\u{10ffff}', '\u{e000}',
+    // characters whose code point, truncated to its low byte, is a delimiter / escape / NUL / line break
+    '一', 'Ā', '言', '＠', '中', 'Ｏ', 'ぜ', 'ぼ', '上', '不', '\u{4e20}', '\u{4e2f}', '\u{4e5c}', '\u{4e7c}',
 ];
 
 fn fmt_char(rng: &mut Rng) -> char {
@@ -634,9 +663,28 @@ fn special_states_round_trip(ctx: &mut Ctx, prop: &str, k: u64, partial: bool) {
         }
         observe(&s, false)
     });
-    ctx.eval(4);
-    ctx.count("special_history_states_round_tripped", 4);
+    let r5 = guard(|| {
+        // (e) tags from a parsed line, then a longer raw text loaded into the same object (no prediction in between)
+        let mut s = vaporetto::Sentence::from_tokenized("ab/X/Y c/Z").unwrap();
+        s.update_raw("abcdefgh ij".to_string()).unwrap();
+        observe(&s, false)
+    });
+    ctx.eval(5);
+    ctx.count("special_history_states_round_tripped", 5);
     let mut states = vec![];
+    match r5 {
+        Ok(o) => {
+            if o.n_tags != 0 || !o.tags.is_empty() || o.text != "abcdefgh ij" {
+                ctx.violation(&format!("{prop}:raw_update_of_tagged_object_keeps_tags"), o.to_json());
+                return;
+            }
+            states.push(("raw_update_after_tagged_line", o));
+        }
+        Err(p) => {
+            ctx.violation(&format!("{prop}:writer_panicked_after_raw_update_of_tagged_object:{}", panic_site(&p)), J::obj(vec![("panic", J::s(&p))]));
+            return;
+        }
+    }
     match r4 {
         Ok(o) => {
             if o.tags.len() != 2 || o.n_tags != 2 {
@@ -718,7 +766,8 @@ thread_local! {
             type_window_size: 1,
             ..Default::default()
         };
-        new_predictor(&m, true).expect("tag-less predictor with tag prediction")
+        // (builds without the tag-prediction feature cannot request tag prediction)
+        new_predictor(&m, cfg!(feature = "tag-prediction")).expect("tag-less predictor with tag prediction")
     };
 }
 
@@ -886,6 +935,17 @@ fn check_describes(ctx: &mut Ctx, f: Fmt, input: &str, obs: &Obs, via: &str) -> 
     if obs.tokenized != rt {
         ctx.violation(&format!("C05:{}:tokenized_writer_disagrees_with_state", f.name()), detail(vec![("expected", J::s(&rt))]));
         return false;
+    }
+    // the partial-annotation writer: its text must denote the same sentence (reference parser)
+    match fmt::parse_partial(&obs.partial) {
+        Ok(back) if fmt::same_modulo_trailing(&got, &back).is_ok() => {}
+        other => {
+            ctx.violation(
+                &format!("C05:{}:partial_annotation_writer_disagrees_with_state", f.name()),
+                detail(vec![("written", J::s(clip(&obs.partial, 200))), ("reference_parse", J::s(match other { Ok(_) => "denotes another sentence".to_string(), Err(e) => format!("rejected: {e}") }))]),
+            );
+            return false;
+        }
     }
     true
 }
